@@ -190,8 +190,14 @@ def run(ctx):
         tok_pushes = [x for x in pushes if "ParsedToken" in show(x[2][1]) or "mem::replace" in show(x[2][1])]
         good = len(rep) == 1 and _is_paren(rep[0][2][1], "Open")
         if good:
+            # the replaced token is the one the owner search returns for ALL tokens read so far
             tgt = rel.canon(rep[0][2][0])
-            good = isinstance(tgt, App) and tgt.fn.endswith("index_mut") and owner in show(tgt.args[1])
+            good = isinstance(tgt, App) and tgt.fn.endswith("index_mut") and len(tgt.args) == 2
+            if good:
+                ix = rel.canon(tgt.args[1])
+                good = isinstance(ix, App) and ix.fn == ".0" and isinstance(ix.args[0], App) and ix.args[0].fn == "as:Some" and isinstance(ix.args[0].args[0], App) \
+                    and ix.args[0].args[0].fn == owner and len(ix.args[0].args[0].args) == 1 and rel.canon(ix.args[0].args[0].args[0]).key() == rel.canon(tgt.args[0]).key() \
+                    and isinstance(rel.canon(tgt.args[0]), Unknown)
         if good:
             seq = []
             for x in tok_pushes:
